@@ -458,6 +458,18 @@ class Module(HasAccessibles):
             self.parameters[name] = accessible
         if isinstance(accessible, Command):
             self.commands[name] = accessible
+        if isinstance(accessible, Limit):
+            # the datatype of a limit is derived from the base parameter. this has to happen
+            # before its cfg is applied: datatype properties and the value in cfg refer to it
+            basepname = name.rpartition('_')[0]
+            baseparam = self.parameters.get(basepname)
+            if not baseparam:
+                self.errors.append(f'limit {name!r} is given, but not {basepname!r}')
+            elif baseparam.datatype is not None:
+                try:
+                    accessible.set_datatype(baseparam.datatype)
+                except (ProgrammingError, BadValueError) as e:  # inconsistent datatype of baseparam (e.g. min > max in cfg)
+                    self.errors.append(f'{basepname}: {e}')
         if cfg is not None:
             try:
                 for propname, propvalue in cfg.items():
@@ -484,17 +496,9 @@ class Module(HasAccessibles):
         or complain, when cfg is needed
         """
         self.paramCallbacks[pname] = []
-        if isinstance(pobj, Limit):
-            basepname = pname.rpartition('_')[0]
-            baseparam = self.parameters.get(basepname)
-            if not baseparam:
-                self.errors.append(f'limit {pname!r} is given, but not {basepname!r}')
-                return
-            if baseparam.datatype is None:
-                return  # an error will be reported on baseparam
-            pobj.set_datatype(baseparam.datatype)
         if not pobj.hasDatatype():
-            self.errors.append(f'{pname} needs a datatype')
+            if not isinstance(pobj, Limit):  # for a limit, the error is reported on the base parameter
+                self.errors.append(f'{pname} needs a datatype')
             return
         # value and default have ValueType(), but must match the datatype. this can be checked
         # only here, where the datatype is final (properties from cfg applied, limit datatype set)
